@@ -8,7 +8,7 @@ from ..model import norm, NotConst, calls_in, stores_in, ShapeError, AnchorMissi
 from ..paths import enumerate_paths, facts_at, walk_shallow, enclosing_stmt, enclosing_loops
 from ..guards import Evaluator, atom_texts
 from ..tables import Tables
-from .common import where, path_nodes, feasible, self_call, same_function, grid
+from .common import where, path_nodes, feasible, self_call, same_function, grid, subst_locals
 
 MOD = "service.cov"
 
@@ -162,6 +162,30 @@ def r3(ctx):
                   facts={"read_by_reporters": sorted(read), "stored_on_renewal": sorted(stored_on_renew), "renew_parameters": rn_params})
     if not mutable:
         raise ShapeError("reporters read neither cov.lifetime nor cov.confirmed")
+    # ... and every renewal site hands over the renewing request's values
+    svc = prog.cls(MOD, "ChangeOfValueServices")
+    REQ = {"lifetime": "lifetime", "confirmed": "issueConfirmedNotifications"}
+    nsites = 0
+    for hname, h in svc.methods.items():
+        if not hname.startswith("do_Subscribe"):
+            continue
+        ap = h.args.args[1].arg
+        for call in calls_in(h):
+            if isinstance(call.func, ast.Attribute) and call.func.attr == "renew_subscription":
+                nsites += 1
+                bound = {}
+                for i, a in enumerate(call.args):
+                    if i < len(rn_params):
+                        bound[rn_params[i]] = a
+                for kw in call.keywords:
+                    if kw.arg:
+                        bound[kw.arg] = kw.value
+                for k in mutable:
+                    a = bound.get(k)
+                    src = norm(subst_locals(h, a)) if a is not None else None
+                    ctx.check("%s:renewal-passes[%s]" % (hname, k), src == "%s.%s" % (ap, REQ[k]), where(m, call),
+                              "the renewal must be given the request's %s (%s.%s); found %s: the subscription keeps reporting the first request's value" % (k, ap, REQ[k], src))
+    ctx.check("ChangeOfValueServices:renewal-sites", nsites >= 2, where(m, svc.node), "both subscribe handlers renew an existing subscription (found %d sites)" % nsites)
     # remaining time is computed from the timer
     for fn, name in ((rep, "COVDetection.send_cov_notifications"), (acs, "ActiveCOVSubscriptions.ReadProperty")):
         tr = [st for st in walk_shallow(fn) if isinstance(st, ast.Assign) and norm(st.targets[0]) == "time_remaining" and "taskTime" in norm(st.value)]
